@@ -286,3 +286,45 @@ Proof.
   apply Nat.eqb_eq in H1. apply Permutation_sym. apply NoDup_Permutation_bis; [exact Hnd|lia|].
   intros x Hx. rewrite forallb_forall in H3. apply mem_id_in. now apply H3.
 Qed.
+
+(* lookups through commit / clearRuntime-of-all / removeEntry *)
+Lemma lookup_commit m q :
+  NoDup (keys m) ->
+  lookup q (commit m) = match lookup q m with
+                        | Some e => if action_eqb (e_act e) AStop then None else Some (set_act ANone e)
+                        | None => None
+                        end.
+Proof.
+  induction m as [|[k e] m IH]; intros Hnd; [reflexivity|].
+  cbn [keys map fst] in Hnd. inversion Hnd as [|? ? Hn Hnd']; subst. specialize (IH Hnd').
+  unfold commit in *. cbn [filter snd fst lookup]. destruct (id_eqb k q) eqn:E.
+  - apply id_eqb_eq in E. subst q. destruct (action_eqb (e_act e) AStop); cbn [negb map fst snd lookup].
+    + rewrite IH. apply lookup_none in Hn. now rewrite Hn.
+    + now rewrite id_eqb_refl.
+  - destruct (action_eqb (e_act e) AStop); cbn [negb map fst snd lookup]; [exact IH|]. now rewrite E.
+Qed.
+
+Lemma lookup_clear_all tp : forall pend q,
+  lookup q (clear_all tp pend) = match lookup q pend with
+                                 | Some e => Some (if mem_id q tp then set_rt None e else e)
+                                 | None => None
+                                 end.
+Proof.
+  induction tp as [|k tp IH]; intros pend q.
+  - cbn [clear_all fold_left mem_id]. now destruct (lookup q pend).
+  - cbn [clear_all fold_left].
+    assert (E : match clear_runtime k pend with Some m' => m' | None => pend end = update_rt k None pend).
+    { unfold clear_runtime. destruct (mem k pend) eqn:Em; [reflexivity|]. apply mem_false in Em. now rewrite update_rt_notin. }
+    rewrite E. fold (clear_all tp (update_rt k None pend)). rewrite IH, lookup_update_rt.
+    destruct (lookup q pend) as [e|]; [|reflexivity]. cbn [mem_id].
+    destruct (id_eqb q k) eqn:E1.
+    + apply id_eqb_eq in E1. subst. rewrite id_eqb_refl. cbn [orb]. now destruct (mem_id k tp).
+    + assert (E2 : id_eqb k q = false) by (apply id_eqb_neq; apply id_eqb_neq in E1; congruence).
+      now rewrite E2.
+Qed.
+
+Lemma lookup_remove_same k (m : emap) : lookup k (remove_entry k m) = None.
+Proof.
+  apply lookup_none. unfold remove_entry, keys. intros Hin. apply in_map_iff in Hin as ((k', e) & <- & Hin).
+  apply filter_In in Hin as [_ Hin]. cbn [fst] in Hin. now rewrite id_eqb_refl in Hin.
+Qed.
